@@ -88,6 +88,11 @@ def run(job):
         if more and h != 'ALL':
             skip |= more
             continue
+        if any(f['kind'] == 'rlimit' for f in mine):
+            # the same retry as the checker: six times the budget
+            r = D.run_verus(path, ['--verify-only-module', mod, '--verify-function', '*::' + nm, '--rlimit', '60'], timeout=2400)
+            fl = [f for f in failures(gi, r['diags'])]
+            mine = [f for f in fl if norm(f['fn']) == k]
         other_tool = [f for f in fl if f['kind'] == 'tool' and norm(f['fn']) != k]
         ent = {'tool': any(f['kind'] == 'tool' for f in mine) or bool(other_tool) or r.get('timeout', False) or not r.get('json'),
                'rlimit': any(f['kind'] == 'rlimit' for f in mine),
